@@ -1,9 +1,698 @@
-"""Contracts of concurrency/executor.py and concurrency/models.py verified against the real bodies."""
+"""Contracts of concurrency/models.py and concurrency/executor.py verified against the real bodies (C09, C07, C06, C16, C08)."""
+from __future__ import annotations
+
+import z3
+
+from pyvc import ops
+from pyvc.engine import Engine, Hooks
+from pyvc.loader import ClassInfo
+from pyvc.ops import F, T, is_none, mk_opt, strip_opt
+from pyvc.state import St
+from pyvc.values import ClassRef, ExtRef, FuncRef, OpaqueFn, Opt, Ref, Sym, Unsupported, enum_member, enum_sort, fresh, fresh_name, is_sym, simp, zbool, zint, zreal
 
 
-def replay_items(chk):
-    pass
+class ExecHooks(Hooks):
+    def ext_call(self, eng, st, name, args, kwargs):
+        if name in ("threading.Lock", "Lock"):
+            return [("val", st.alloc("opaque:Lock", {}), st)]
+        if name in ("threading.Event", "Event"):
+            return [("val", st.alloc("opaque:Event", {}), st)]
+        if name in ("collections.Counter", "Counter"):
+            raise Unsupported("Counter: summarised at from_items")
+        return None
+
+    def opaque_call(self, eng, st, fn, args, kwargs):
+        n = fn.name
+        if n == "Future.cancelled":
+            b = fresh("bool", "cancelled")
+            st.emit("future_cancelled", b=b.t)
+            return [("val", b, st)]
+        if n == "Future.result":
+            st.emit("future_result")
+            s2 = st.fork()
+            exc = eng.new_symexc(s2, "branch")
+            s2.emit("future_raised", exc=exc)
+            res = fresh("any", "branch_result")
+            st.trace[-1].d["result"] = res
+            return [("val", res, st), ("raise", exc, s2)]
+        if n == "Event.set":
+            st.emit("event_set", ev=fn.info)
+            return [("val", None, st)]
+        if n == "TimerScheduler.schedule_resume":
+            st.emit("schedule_resume", exe=args[0], at=args[1])
+            return [("val", None, st)]
+        return Hooks.opaque_call(self, eng, st, fn, args, kwargs)
+
+    def exc_attr(self, eng, st, ref, name):
+        if name == "scheduled_timestamp":
+            v = fresh("real", "scheduled_timestamp")
+            st.setfield(ref, "scheduled_timestamp", v)
+            return [("val", v, st)]
+        return Hooks.exc_attr(self, eng, st, ref, name)
 
 
-def done_callback_total(chk, prefix):
-    pass
+# ------------------------------------------------------------------------------------------------ spec functions (from the statement of C09)
+def spec_tolerance_exceeded(total, tc_none, tc, tp_none, tp, f):
+    """the failure count exceeds the configured tolerance (count or percentage)"""
+    return z3.Or(z3.And(z3.Not(tc_none), f > tc), z3.And(z3.Not(tp_none), total > 0, z3.ToReal(f) * 100 > tp * z3.ToReal(total)))
+
+
+def spec_continue(total, tc_none, tc, tp_none, tp, f):
+    """no tolerance configured: any failure stops; otherwise stop when the tolerance is exceeded"""
+    return z3.If(z3.And(tc_none, tp_none), f == 0, z3.Not(spec_tolerance_exceeded(total, tc_none, tc, tp_none, tp, f)))
+
+
+def spec_stop(total, minimum, tc_none, tc, tp_none, tp, s, f):
+    return z3.Or(s + f == total, s >= minimum, z3.Not(spec_continue(total, tc_none, tc, tp_none, tp, f)))
+
+
+def counters_obj(eng, st):
+    P = eng.program
+    total, minimum, s, f = (z3.Int(n) for n in ("total", "min_successful", "success", "failure"))
+    tc_none, tp_none = z3.Bool("tol_count.none"), z3.Bool("tol_pct.none")
+    tc, tp = z3.Int("tol_count"), z3.Real("tol_pct")
+    st.assume(z3.And(total >= 0, s >= 0, f >= 0, s + f <= total))
+    c = st.alloc(P.cls("concurrency.models.ExecutionCounters"), {
+        "total_tasks": Sym("int", total), "min_successful": Sym("int", minimum), "tolerated_failure_count": mk_opt(tc_none, Sym("int", tc)),
+        "tolerated_failure_percentage": mk_opt(tp_none, Sym("real", tp)), "success_count": Sym("int", s), "failure_count": Sym("int", f), "_lock": st.alloc("opaque:Lock", {})})
+    return c, dict(total=total, minimum=minimum, tc_none=tc_none, tc=tc, tp_none=tp_none, tp=tp, s=s, f=f)
+
+
+def counters_contract(chk, prefix="C09"):
+    eng = Engine(hooks=ExecHooks())
+    P = eng.program
+    cls = P.cls("concurrency.models.ExecutionCounters")
+    specs = {"should_continue": lambda g: spec_continue(g["total"], g["tc_none"], g["tc"], g["tp_none"], g["tp"], g["f"]),
+             "is_complete": lambda g: z3.Or(g["s"] + g["f"] == g["total"], g["s"] >= g["minimum"]),
+             "should_complete": lambda g: spec_stop(g["total"], g["minimum"], g["tc_none"], g["tc"], g["tp_none"], g["tp"], g["s"], g["f"])}
+    for m, spec in specs.items():
+        st = St()
+        c, g = counters_obj(eng, st)
+        chk.function(f"concurrency.models.ExecutionCounters.{m}")
+        res = eng.run(cls.find_method(m), [c], st=st)
+        chk.paths += len(res)
+        for k, v, s in res:
+            if k == "raise":
+                chk.prove(f"{prefix}.counters.{m}", s.pc, F, desc=f"{m} does not raise")
+                continue
+            got = z3.BoolVal(v) if isinstance(v, bool) else zbool(v)
+            chk.prove(f"{prefix}.counters.{m}", s.pc, got == spec(g), desc=f"ExecutionCounters.{m}() equals the policy's spec function for every configuration and count (linear real arithmetic)",
+                      sample=f"{m}: returned value == spec(total, min_successful, tolerances, success, failure)")
+    for m, delta in (("complete_task", ("success_count", "failure_count")), ("fail_task", ("failure_count", "success_count"))):
+        st = St()
+        c, g = counters_obj(eng, st)
+        before = dict(st.get(c))
+        chk.function(f"concurrency.models.ExecutionCounters.{m}")
+        for k, v, s in eng.run(cls.find_method(m), [c], st=st):
+            after = s.get(c)
+            chk.prove(f"{prefix}.counters.{m}", s.pc, z3.And(z3.BoolVal(k == "val"), zint(after[delta[0]]) == zint(before[delta[0]]) + 1, zint(after[delta[1]]) == zint(before[delta[1]]),
+                                                               *[ops.values_equal(s, after[x], before[x]) for x in ("total_tasks", "min_successful", "tolerated_failure_count", "tolerated_failure_percentage")]),
+                      desc=f"{m} increments exactly its counter and nothing else")
+    return eng
+
+
+REASONS = ("ALL_COMPLETED", "MIN_SUCCESSFUL_REACHED", "FAILURE_TOLERANCE_EXCEEDED")
+
+
+def classifier_run(eng, st):
+    """symbolic run of BatchResult._get_completion_reason; returns (paths, symbols)"""
+    P = eng.program
+    cc_cls = P.cls("config.CompletionConfig")
+    f, s, started = z3.Int("failed"), z3.Int("succeeded"), z3.Int("started")
+    st.assume(z3.And(f >= 0, s >= 0, started >= 0))
+    st.assume(z3.And(z3.Int("cfg.min") >= 0, z3.Int("cfg.tol_count") >= 0, z3.Real("cfg.tol_pct") >= 0))  # well-formed completion configuration
+    ms_none, tc_none, tp_none = z3.Bool("cfg.min.none"), z3.Bool("cfg.tol_count.none"), z3.Bool("cfg.tol_pct.none")
+    ms, tc, tp = z3.Int("cfg.min"), z3.Int("cfg.tol_count"), z3.Real("cfg.tol_pct")
+    cfg0 = st.alloc(cc_cls, {"min_successful": mk_opt(ms_none, Sym("int", ms)), "tolerated_failure_count": mk_opt(tc_none, Sym("int", tc)), "tolerated_failure_percentage": mk_opt(tp_none, Sym("real", tp))})
+    cfg_none = z3.Bool("cfg.none")
+    cfg = mk_opt(cfg_none, cfg0)
+    br = P.cls("concurrency.models.BatchResult")
+    res = eng.run(br.find_method("_get_completion_reason"), [], {"failure_count": Sym("int", f), "success_count": Sym("int", s), "completed_count": Sym("int", s + f), "total_count": Sym("int", s + f + started), "completion_config": cfg}, st=st)
+    return res, dict(f=f, s=s, started=started, ms_none=z3.Or(cfg_none, ms_none), ms=ms, tc_none=z3.Or(cfg_none, tc_none), tc=tc, tp_none=z3.Or(cfg_none, tp_none), tp=tp, cfg_none=cfg_none)
+
+
+def real_stop_decision(chk, eng, st_cfg, g, total):
+    """the executor's stop predicate taken from the REAL code: ConcurrentExecutor.__init__ maps the completion config to the
+    counters, ExecutionCounters.should_complete() decides.  Returns [(path condition, z3 Bool 'stop')]"""
+    P = eng.program
+    cls = P.cls("concurrency.executor.ConcurrentExecutor")
+    chk.function("concurrency.executor.ConcurrentExecutor.__init__")
+    st = St()
+    n = z3.Int("n_executables")
+    st.assume(n == total)
+    exes = st.alloc("list", {"__kind__": "glist", "len": n, "elem": st.alloc("opaque:Executable", {})})
+    cc_cls = P.cls("config.CompletionConfig")
+    ms_none, tc_none, tp_none = z3.Bool("cfg.min.none"), z3.Bool("cfg.tol_count.none"), z3.Bool("cfg.tol_pct.none")
+    cfg = st.alloc(cc_cls, {"min_successful": mk_opt(ms_none, Sym("int", z3.Int("cfg.min"))), "tolerated_failure_count": mk_opt(tc_none, Sym("int", z3.Int("cfg.tol_count"))),
+                            "tolerated_failure_percentage": mk_opt(tp_none, Sym("real", z3.Real("cfg.tol_pct")))})
+    self_ = st.alloc(cls, {})
+    out = []
+    for k, v, s in eng.call_func(cls.find_method("__init__"), [self_, exes, None, cfg, fresh("any", "sub_top"), fresh("any", "sub_iter"), "p-", None], {}, st):
+        if k == "raise":
+            chk.fault("ConcurrentExecutor.__init__ raised")
+            continue
+        counters = s.get(self_)["counters"]
+        s.setfield(counters, "success_count", Sym("int", g["s"]))
+        s.setfield(counters, "failure_count", Sym("int", g["f"]))
+        for k2, v2, s2 in eng.call_func(P.cls("concurrency.models.ExecutionCounters").find_method("should_complete"), [counters], {}, s):
+            if k2 == "raise":
+                chk.fault("should_complete raised")
+                continue
+            out.append((list(s2.pc), z3.BoolVal(v2) if isinstance(v2, bool) else zbool(v2)))
+    return out
+
+
+def reason_consistency(chk, prefix="C09"):
+    """C09.lemma.reason_consistent, stated over the REAL classifier and the REAL stop decision:
+    whenever the executor's stop predicate holds for counts (s, f) with `started` unfinished branches, the reason reported for those
+    item statuses is consistent with them and with the policy"""
+    eng = Engine(hooks=ExecHooks())
+    P = eng.program
+    st = St()
+    res, g = classifier_run(eng, st)
+    chk.function("concurrency.models.BatchResult._get_completion_reason")
+    chk.paths += len(res)
+    rcls = P.cls("concurrency.models.CompletionReason")
+    consts = enum_sort(rcls)[1]
+    total = g["s"] + g["f"] + g["started"]
+    stops = real_stop_decision(chk, eng, res[0][2] if res else st, g, total)
+    for (spc, stop) in stops:
+      pre = list(spc) + [stop, z3.Not(g["cfg_none"])]
+      for k, v, s in res:
+          if k == "raise":
+              chk.prove(f"{prefix}.classifier.total", s.pc, F, desc="_get_completion_reason does not raise")
+              continue
+          r = v.t
+          regions = {"min_successful_without_tolerance": z3.And(z3.Not(g["ms_none"]), g["tc_none"], g["tp_none"], g["f"] > 0, g["started"] > 0)}
+
+          def describe(model, g=g):
+              return {n: str(model.eval(t, model_completion=True)) for n, t in g.items() if n != "cfg_none"}
+
+          def replay(inputs):
+              from pyvc.check import native
+              r_ = native("batch_replay.py", inputs)
+              return bool(r_.get("confirmed")), r_
+          chk.prove(f"{prefix}.lemma.reason_consistent.all_completed", list(s.pc) + pre, z3.Implies(r == consts["ALL_COMPLETED"], g["started"] == 0),
+                    desc="stop decision holds and reason is ALL_COMPLETED => no item is reported STARTED", regions=regions, describe=describe, replay=replay,
+                    sample="stop(s,f) and reason(s,f,started)=ALL_COMPLETED => started == 0")
+          chk.prove(f"{prefix}.lemma.reason_consistent.min_successful", list(s.pc) + pre, z3.Implies(r == consts["MIN_SUCCESSFUL_REACHED"], z3.And(z3.Not(g["ms_none"]), g["s"] >= g["ms"])),
+                    desc="reason MIN_SUCCESSFUL_REACHED => a minimum is configured and reached")
+          chk.prove(f"{prefix}.lemma.reason_consistent.tolerance", list(s.pc) + pre, z3.Implies(r == consts["FAILURE_TOLERANCE_EXCEEDED"], z3.And(g["f"] > 0, z3.Or(z3.And(g["tc_none"], g["tp_none"]), spec_tolerance_exceeded(total, g["tc_none"], g["tc"], g["tp_none"], g["tp"], g["f"])))),
+                    desc="reason FAILURE_TOLERANCE_EXCEEDED => the failure count exceeds the tolerance the stop decision used")
+          chk.prove(f"{prefix}.lemma.reason_consistent.unfinished_explained", list(s.pc) + pre, z3.Implies(g["started"] > 0, r != consts["ALL_COMPLETED"]), regions=regions, describe=describe, replay=replay,
+                    desc="branches unfinished at decision time => the reason names the policy clause that decided (minimum reached or tolerance exceeded)")
+    return eng
+
+
+# ------------------------------------------------------------------------------------------------ should_execution_suspend
+BS = "concurrency.models.BranchStatus"
+SES = "concurrency.executor.ConcurrentExecutor.should_execution_suspend"
+status_f = None
+
+
+def branch_funcs(P):
+    sort = enum_sort(P.cls(BS))[0]
+    return z3.Function("branch_status", z3.IntSort(), sort), z3.Function("branch_until_none", z3.IntSort(), z3.BoolSort()), z3.Function("branch_until", z3.IntSort(), z3.RealSort())
+
+
+def suspend_decision(chk, prefix="C07"):
+    from pyvc.loops import ForInvariant
+    eng = Engine(hooks=ExecHooks())
+    P = eng.program
+    st = St()
+    chk.function(SES, "verified (loop invariant over the branches processed so far)")
+    bs_cls = P.cls(BS)
+    C = enum_sort(bs_cls)[1]
+    stat, unone, until = branch_funcs(P)
+    INF = z3.Real("INF")
+    n = z3.Int("n_branches")
+    st.assume(n >= 0)
+    i0 = z3.Int("i!all")
+    st.assume(z3.ForAll([i0], until(i0) < INF))  # A: wake-up times are finite
+    ews = P.cls("concurrency.models.ExecutableWithState")
+
+    def elem(s, i):
+        return s.alloc(ews, {"_status": Sym("enum", stat(i), bs_cls), "_suspend_until": mk_opt(unone(i), Sym("real", until(i))), "executable": s.alloc("opaque:Executable", {})})
+    lst = st.alloc("list", {"__kind__": "flist", "len": n, "elem": elem})
+    self_ = st.alloc(P.cls("concurrency.executor.ConcurrentExecutor"), {"executables_with_state": lst})
+
+    def active(i):
+        return z3.Or(stat(i) == C["PENDING"], stat(i) == C["RUNNING"])
+
+    def timed(i):
+        return z3.And(stat(i) == C["SUSPENDED_WITH_TIMEOUT"], z3.Not(unone(i)), until(i) != 0)
+
+    def inv(eng_, s, k):
+        e = zreal(eng_.unopt(s, s.env["earliest_timestamp"]))
+        ind = s.env["indefinite_suspend_task"]
+        i, j = z3.Int(fresh_name("i")), z3.Int(fresh_name("j"))
+        return z3.And(z3.ForAll([i], z3.Implies(z3.And(i >= 0, i < k), z3.Not(active(i)))),
+                      z3.Or(e == INF, z3.Exists([j], z3.And(j >= 0, j < k, timed(j), e == until(j)))),
+                      z3.ForAll([i], z3.Implies(z3.And(i >= 0, i < k, timed(i)), e <= until(i))),
+                      z3.Not(is_none(ind)) == z3.Exists([j], z3.And(j >= 0, j < k, stat(j) == C["SUSPENDED"])))
+
+    def havoc(eng_, s):
+        s.env["earliest_timestamp"] = fresh("real", "earliest")
+        s.env["indefinite_suspend_task"] = mk_opt(z3.Bool(fresh_name("indef.none")), s.alloc(ews, {"_status": enum_member(bs_cls, "SUSPENDED"), "_suspend_until": None, "executable": s.alloc("opaque:Executable", {})}))
+        s.env.pop("exe_state", None)
+    eng.loop_handlers[(SES, "for", 0)] = ForInvariant(chk, f"{prefix}.exec.suspend_decision.loop", inv, havoc, desc="no processed branch is pending/running; earliest is the minimum wake-up time of the processed timed branches; an indefinitely suspended branch was seen iff one was processed")
+    res = eng.run(P.func(SES), [self_], st=st)
+    chk.paths += len(res)
+    i, j = z3.Int("i!post"), z3.Int("j!post")
+    none_active = z3.ForAll([i], z3.Implies(z3.And(i >= 0, i < n), z3.Not(active(i))))
+    any_timed = z3.Exists([j], z3.And(j >= 0, j < n, timed(j)))
+    any_indef = z3.Exists([j], z3.And(j >= 0, j < n, stat(j) == C["SUSPENDED"]))
+    for k, v, s in res:
+        if k == "raise":
+            chk.prove(f"{prefix}.exec.suspend_decision", s.pc, F, desc="should_execution_suspend does not raise")
+            continue
+        r = s.get(v)
+        sus = zbool(r["should_suspend"]) if not isinstance(r["should_suspend"], bool) else z3.BoolVal(r["should_suspend"])
+        exc = strip_opt(r["exception"])
+        cls_name = getattr(getattr(exc, "cls", None), "name", None)
+        goal = z3.And(sus == z3.And(none_active, z3.Or(any_timed, any_indef)))
+        if cls_name == "TimedSuspendExecution":
+            ts = zreal(s.get(exc)["scheduled_timestamp"])
+            goal = z3.And(goal, sus, any_timed, z3.Exists([j], z3.And(j >= 0, j < n, timed(j), ts == until(j))), z3.ForAll([i], z3.Implies(z3.And(i >= 0, i < n, timed(i)), ts <= until(i))))
+        elif cls_name == "SuspendExecution":
+            goal = z3.And(goal, sus, z3.Not(any_timed), any_indef)
+        else:
+            goal = z3.And(goal, z3.Not(sus), z3.BoolVal(exc is None))
+        chk.prove(f"{prefix}.exec.suspend_decision", s.pc, goal,
+                  desc="suspend iff no branch is pending/running and some branch is suspended; timed with the minimum wake-up time if any timed branch has one, else indefinite",
+                  sample="should_execution_suspend over an arbitrary number of branches")
+    return eng
+
+
+# ------------------------------------------------------------------------------------------------ _on_task_complete
+OTC = "concurrency.executor.ConcurrentExecutor._on_task_complete"
+
+
+def on_task_complete(chk, prefix, want):
+    eng = Engine(hooks=ExecHooks())
+    P = eng.program
+    st = St()
+    chk.function(OTC, "verified (future, timer scheduler and completion event opaque; should_execution_suspend by contract)")
+    for m in ("run", "suspend", "suspend_with_timeout", "complete", "fail"):
+        chk.function(f"concurrency.models.ExecutableWithState.{m}", "verified (inlined)")
+    bs_cls = P.cls(BS)
+    C = enum_sort(bs_cls)[1]
+    counters, g = counters_obj(eng, st)
+    ews = P.cls("concurrency.models.ExecutableWithState")
+    status0 = fresh("enum", "status0", bs_cls)
+    exe = st.alloc(ews, {"_status": status0, "_suspend_until": eng.sym_of_type("float | None", "until0", st), "_result": None, "_is_result_set": False, "_error": None, "_future": None,
+                         "executable": st.alloc(P.cls("concurrency.models.Executable"), {"index": fresh("int", "index"), "func": OpaqueFn("branch_func")})})
+    ev = st.alloc("opaque:Event", {})
+    self_ = st.alloc(P.cls("concurrency.executor.ConcurrentExecutor"), {"counters": counters, "_completion_event": ev, "_suspend_exception": None, "_fatal_exception": None, "executables_with_state": st.alloc("list", {"__kind__": "list", "items": (exe,)})})
+    sr_cls = P.cls("concurrency.models.SuspendResult")
+
+    def ses_summary(eng_, s, args, kwargs):
+        sus = fresh("bool", "decision.should_suspend")
+        exc = eng_.new_symexc(s, "decision")
+        r = s.alloc(sr_cls, {"should_suspend": sus, "exception": mk_opt(z3.Not(sus.t), exc)})
+        s.emit("decision", result=r, should=sus.t, exc=exc)
+        return [("val", r, s)]
+    eng.summaries[SES] = ses_summary
+    future = st.alloc("opaque:Future", {})
+    sched = st.alloc("opaque:TimerScheduler", {})
+    before = dict(st.get(counters))
+    res = eng.run(P.func(OTC), [self_, exe, future, sched], st=st)
+    chk.paths += len(res)
+    for k, v, s in res:
+        tr = s.trace
+        raised = next((e.exc for e in tr if e.kind == "future_raised"), None)
+        got_result = any(e.kind == "future_result" for e in tr) and raised is None
+        cancelled = next((e.b for e in tr if e.kind == "future_cancelled"), F)
+        sets = [e for e in tr if e.kind == "event_set"]
+        e_now = s.get(exe)
+        c_now = s.get(counters)
+        ds, df = zint(c_now["success_count"]) - zint(before["success_count"]), zint(c_now["failure_count"]) - zint(before["failure_count"])
+        status = e_now["_status"].t
+
+        def isa(name):
+            return eng.symexc_isa(raised, name if name in ("Exception",) else P.cls("exceptions." + name), s)
+        if "C06" in want or "C07" in want:
+            # totality: the done-callback must not raise, whatever the branch raised
+            desc = "the done-callback returns normally for every class of exception stored in the future (otherwise the completion event is never set and execute() waits forever)"
+            regions = {"base_exception_from_branch": z3.BoolVal(True)} if raised is not None else {}
+            chk.prove(f"{prefix}.branch.done_callback_total", s.pc, k == "val", desc=desc, sample=f"_on_task_complete: {[e.kind for e in tr]}")
+        if k != "val":
+            continue
+        if "C07" in want:
+            if raised is None and not got_result:
+                goal = z3.And(cancelled, status == C["SUSPENDED"], ds == 0, df == 0, z3.BoolVal(not sets))
+                case = "cancelled future => branch SUSPENDED, counters untouched"
+            elif got_result:
+                goal = z3.And(status == C["COMPLETED"], ds == 1, df == 0, z3.BoolVal(e_now["_result"] is next(e for e in tr if e.kind == "future_result").d["result"]))
+                case = "result => COMPLETED with that result, success count + 1"
+            else:
+                orphan, timed_, susp, exc_ = isa("OrphanedChildException"), isa("TimedSuspendExecution"), isa("SuspendExecution"), isa("Exception")
+                sched_ev = [e for e in tr if e.kind == "schedule_resume"]
+                goal = z3.And(
+                    z3.Implies(orphan, z3.And(status == status0.t, ds == 0, df == 0, z3.BoolVal(not sets and not sched_ev))),
+                    z3.Implies(z3.And(z3.Not(orphan), timed_), z3.And(status == C["SUSPENDED_WITH_TIMEOUT"], ds == 0, df == 0, z3.BoolVal(len(sched_ev) == 1 and sched_ev[0].exe == exe))),
+                    z3.Implies(z3.And(z3.Not(orphan), z3.Not(timed_), susp), z3.And(status == C["SUSPENDED"], ds == 0, df == 0)),
+                    z3.Implies(z3.And(z3.Not(orphan), z3.Not(susp), exc_), z3.And(status == C["FAILED"], df == 1, ds == 0, z3.BoolVal(e_now["_error"] == raised))))
+                if sched_ev:
+                    goal = z3.And(goal, ops.values_equal(s, sched_ev[0].at, s.get(raised).get("scheduled_timestamp")), ops.values_equal(s, e_now["_suspend_until"], s.get(raised).get("scheduled_timestamp")))
+                case = "orphan => nothing changes; TimedSuspend => SUSPENDED_WITH_TIMEOUT + resume scheduled at its timestamp; Suspend => SUSPENDED; Exception => FAILED, failure count + 1"
+            chk.prove(f"{prefix}.exec.on_done_transitions", s.pc, goal, desc="branch status transition per outcome class: " + case)
+            # completion / suspension decision
+            dec = [e for e in tr if e.kind == "decision"]
+            stop = spec_stop(g["total"], g["minimum"], g["tc_none"], g["tc"], g["tp_none"], g["tp"], zint(c_now["success_count"]), zint(c_now["failure_count"]))
+            early_return = (raised is None and not got_result)
+            if not early_return:
+                orphan = isa("OrphanedChildException") if raised is not None else F
+                sus_exc = s.get(self_)["_suspend_exception"]
+                if dec:
+                    goal2 = z3.And(z3.Not(stop), z3.If(dec[0].should, z3.And(z3.BoolVal(len(sets) == 1), z3.BoolVal(strip_opt(sus_exc) == dec[0].exc), z3.Not(is_none(sus_exc))), z3.BoolVal(not sets)))
+                else:
+                    fatal_case = F
+                    if raised is not None:
+                        fatal = z3.And(z3.Not(isa("Exception")), z3.Not(isa("SuspendExecution")), z3.Not(orphan))
+                        fatal_case = z3.And(fatal, z3.BoolVal(len(sets) == 1 and s.get(self_).get("_fatal_exception") == raised))
+                    goal2 = z3.Or(z3.And(orphan, z3.BoolVal(not sets)), z3.And(stop, z3.BoolVal(len(sets) == 1 and sets[0].ev == ev), is_none(sus_exc)), fatal_case)
+                chk.prove(f"{prefix}.exec.on_done_decides", s.pc, goal2,
+                          desc="the completion event is set exactly when the policy is decided (should_complete), or when the suspend decision says suspend (the suspend exception is stored first), or when the branch ended with a non-Exception failure such as BackgroundThreadError (stored for execute() to re-raise)")
+        if "C10" in want and raised is not None:
+            orphan = isa("OrphanedChildException")
+            if eng.feasible(s, orphan):
+                chk.prove(f"{prefix}.exec.orphan_ignored", list(s.pc) + [orphan], z3.And(status == status0.t, ds == 0, df == 0, z3.BoolVal(not sets)),
+                          desc="an orphaned branch that hits OrphanedChildException changes no status, no counter and signals nothing")
+    return eng
+
+
+# ------------------------------------------------------------------------------------------------ _create_result / replay / _execute_item_in_child_context / execute
+CE = "concurrency.executor.ConcurrentExecutor"
+
+
+def sym_ews(eng, st, name, idx):
+    P = eng.program
+    bs_cls = P.cls(BS)
+    C = enum_sort(bs_cls)[1]
+    status = fresh("enum", name + ".status", bs_cls)
+    res = fresh("any", name + ".result")
+    err = eng.new_symexc(st, name + "_error")
+    is_set = fresh("bool", name + ".is_result_set")
+    # class invariant of ExecutableWithState (established by complete()/fail(), C07.exec.on_done_transitions): COMPLETED => result set; FAILED => error set
+    st.assume(z3.Implies(status.t == C["COMPLETED"], is_set.t))
+    err_v = mk_opt(z3.Bool(fresh_name(name + ".error.none")), err)
+    st.assume(z3.Implies(status.t == C["FAILED"], z3.Not(is_none(err_v))))
+    exe = st.alloc(P.cls("concurrency.models.Executable"), {"index": idx, "func": OpaqueFn("branch_func")})
+    return st.alloc(P.cls("concurrency.models.ExecutableWithState"), {"executable": exe, "_status": status, "_result": res, "_is_result_set": is_set, "_error": err_v, "_future": None, "_suspend_until": None})
+
+
+def create_result_items(chk, prefix="C09"):
+    eng = Engine(hooks=ExecHooks())
+    P = eng.program
+    st = St()
+    chk.function(CE + "._create_result", "verified (generic pair of branches: per-element loop body without loop-carried state other than the append)")
+    bs_cls, bis = P.cls(BS), P.cls("concurrency.models.BatchItemStatus")
+    C, I = enum_sort(bs_cls)[1], enum_sort(bis)[1]
+    idx = [fresh("int", "index0"), fresh("int", "index1")]
+    els = [sym_ews(eng, st, f"b{i}", idx[i]) for i in range(2)]
+    cfg = st.alloc("opaque:CompletionConfig", {})
+    self_ = st.alloc(P.cls(CE), {"executables_with_state": st.alloc("list", {"__kind__": "list", "items": tuple(els)}), "completion_config": cfg})
+
+    def from_items(eng_, s, args, kwargs):
+        s.emit("from_items", items=args[1] if len(args) > 1 else kwargs.get("items"), cfg=args[2] if len(args) > 2 else kwargs.get("completion_config"))
+        return [("val", s.alloc("opaque:BatchResult", {}), s)]
+    eng.summaries["concurrency.models.BatchResult.from_items"] = from_items
+    res = eng.run(P.func(CE + "._create_result"), [self_], st=st)
+    chk.paths += len(res)
+    for k, v, s in res:
+        fi = [e for e in s.trace if e.kind == "from_items"]
+        ok = k == "val" and len(fi) == 1 and isinstance(fi[0].items, Ref) and s.get(fi[0].items).get("__kind__") == "list" and len(s.get(fi[0].items)["items"]) == 2 and fi[0].cfg == cfg
+        goal = z3.BoolVal(ok)
+        if ok:
+            for i, it in enumerate(s.get(fi[0].items)["items"]):
+                b, e = s.get(it), s.get(els[i])
+                stt = e["_status"].t
+                succ = z3.And(b["status"].t == I["SUCCEEDED"], ops.values_equal(s, b["result"], e["_result"]), is_none(b["error"]))
+                err_ref = strip_opt(b["error"])
+                from .hobl import error_matches
+                fail = z3.And(b["status"].t == I["FAILED"], is_none(b["result"]), error_matches(s, err_ref, strip_opt(e["_error"]), eng) if isinstance(err_ref, Ref) else F)
+                started = z3.And(b["status"].t == I["STARTED"], is_none(b["result"]), is_none(b["error"]))
+                goal = z3.And(goal, ops.values_equal(s, b["index"], idx[i]), z3.If(stt == C["COMPLETED"], succ, z3.If(stt == C["FAILED"], fail, started)))
+        chk.prove(f"{prefix}.result.items_faithful", s.pc, goal,
+                  desc="one item per branch, in branch order, with the branch's index; COMPLETED => SUCCEEDED with that branch's result; FAILED => FAILED with from_exception(its error); every other status => STARTED without result/error; classified with the executor's completion config",
+                  sample="_create_result over two arbitrary branches")
+    return eng
+
+
+def replay_items(chk, prefix="C16"):
+    eng = Engine(hooks=ExecHooks())
+    P = eng.program
+    st = St()
+    chk.function(CE + ".replay", "verified (generic pair of branches)")
+    bis = P.cls("concurrency.models.BatchItemStatus")
+    I = enum_sort(bis)[1]
+    idf = z3.Function("logical_step_id", z3.IntSort(), z3.StringSort())
+    idx = [fresh("int", "index0"), fresh("int", "index1")]
+    exes = [st.alloc(P.cls("concurrency.models.Executable"), {"index": idx[i], "func": OpaqueFn("branch_func")}) for i in range(2)]
+    cfg = st.alloc("opaque:CompletionConfig", {})
+    self_ = st.alloc(P.cls(CE), {"executables": st.alloc("list", {"__kind__": "list", "items": tuple(exes)}), "completion_config": cfg})
+    ctx = st.alloc("opaque:DurableContext", {})
+    state = st.alloc("opaque:ExecutionState", {})
+    recs = {}
+
+    class H(ExecHooks):
+        def opaque_call(self, eng_, s, fn, args, kwargs):
+            if fn.name == "DurableContext._create_step_id_for_logical_step":
+                return [("val", Sym("str", idf(zint(args[0]))), s)]
+            if fn.name == "ExecutionState.get_checkpoint_result":
+                n = len([e for e in s.trace if e.kind == "read"])
+                op = eng_.sym_of_type("Operation", f"rec{n}", s, P.modules["lambda_service"])
+                rec = mk_opt(z3.Bool(fresh_name(f"rec{n}.absent")), op)
+                tcls = P.cls("lambda_service.OperationType")
+                s.assume(s.get(op)["operation_type"].t == enum_sort(tcls)[1]["CONTEXT"])  # U: a branch is recorded as a CONTEXT operation
+                s.emit("read", id=args[0], rec=rec)
+                cr = P.cls("state.CheckpointedResult")
+                out = []
+                for absent, s2 in eng_.branch(s, is_none(rec)):
+                    out.extend(eng_.call_func(cr.find_method("create_not_found" if absent else "create_from_operation"), [ClassRef(cr)] + ([] if absent else [op]), {}, s2))
+                return out
+            return ExecHooks.opaque_call(self, eng_, s, fn, args, kwargs)
+    eng.hooks = H()
+
+    def child_exec(eng_, s, args, kwargs):
+        s.emit("child_exec", ctx=args[1], exe=args[2])
+        s2 = s.fork()
+        exc = eng_.new_symexc(s2, "child")
+        r = fresh("any", "child_result")
+        s.trace[-1].d["result"] = r
+        return [("val", r, s), ("raise", exc, s2)]
+
+    def from_items(eng_, s, args, kwargs):
+        s.emit("from_items", items=args[1] if len(args) > 1 else kwargs.get("items"), cfg=args[2] if len(args) > 2 else kwargs.get("completion_config"))
+        return [("val", s.alloc("opaque:BatchResult", {}), s)]
+    eng.summaries[CE + "._execute_item_in_child_context"] = child_exec
+    eng.summaries["concurrency.models.BatchResult.from_items"] = from_items
+    res = eng.run(P.func(CE + ".replay"), [self_, state, ctx], st=st)
+    chk.paths += len(res)
+    from .handlers import status_in
+    from .hobl import details_field
+    n_ok = 0
+    for k, v, s in res:
+        reads = [e for e in s.trace if e.kind == "read"]
+        childs = [e for e in s.trace if e.kind == "child_exec"]
+        fi = [e for e in s.trace if e.kind == "from_items"]
+        if k == "raise":
+            # only the re-traversal of a SUCCEEDED branch may raise (its body's own exception)
+            chk.prove(f"{prefix}.exec.replay_items.raise_only_from_child", s.pc, isinstance(v, Ref) and v.cls == "symexc" and bool(childs), desc="replay raises only what the re-traversal of a SUCCEEDED branch raised")
+            continue
+        n_ok += 1
+        ok = len(reads) == 2 and len(fi) == 1 and isinstance(fi[0].items, Ref) and len(s.get(fi[0].items)["items"]) == 2
+        goal = z3.BoolVal(ok)
+        if ok:
+            goal = z3.And(goal, z3.BoolVal(fi[0].cfg == cfg))
+            for i, it in enumerate(s.get(fi[0].items)["items"]):
+                b = s.get(it)
+                rec = reads[i].rec
+                succ_rec = status_in(eng, s, rec, ["SUCCEEDED"])
+                fail_rec = status_in(eng, s, rec, ["FAILED"])
+                mine = [c for c in childs if c.exe == exes[i]]
+                goal = z3.And(goal, ops.values_equal(s, reads[i].id, Sym("str", idf(idx[i].t))), ops.values_equal(s, b["index"], idx[i]))
+                en, err = details_field(s, rec, "context_details", "error")
+                case_succ = z3.And(b["status"].t == I["SUCCEEDED"], z3.BoolVal(len(mine) == 1), ops.values_equal(s, b["result"], mine[0].d["result"]) if len(mine) == 1 else F, is_none(b["error"]))
+                case_fail = z3.And(b["status"].t == I["FAILED"], z3.BoolVal(not mine), is_none(b["result"]), z3.If(en, is_none(b["error"]), z3.And(z3.Not(is_none(b["error"])), z3.BoolVal(strip_opt(b["error"]) == err)) if err is not None else F))
+                case_started = z3.And(b["status"].t == I["STARTED"], z3.BoolVal(not mine), is_none(b["result"]), is_none(b["error"]))
+                goal = z3.And(goal, z3.If(succ_rec, case_succ, z3.If(fail_rec, case_fail, case_started)))
+            ci = len(childs)
+            goal = z3.And(goal, z3.BoolVal(ci == len(childs)))
+        chk.prove(f"{prefix}.exec.replay_items", s.pc, goal,
+                  desc="replay reads each branch's record under the branch's logical id; SUCCEEDED => item from re-running the branch through its child handler; FAILED => the recorded error; otherwise STARTED; no other branch body is entered; classified with the executor's completion config",
+                  sample="ConcurrentExecutor.replay over two arbitrary branches")
+    if not n_ok:
+        chk.fault("replay: no normal path")
+    return eng
+
+
+class ExecuteHooks(ExecHooks):
+    def ext_call(self, eng, st, name, args, kwargs):
+        if name in ("concurrent.futures.ThreadPoolExecutor", "ThreadPoolExecutor"):
+            st.emit("pool_new", max_workers=kwargs.get("max_workers", args[0] if args else None))
+            return [("val", st.alloc("opaque:ThreadPool", {}), st)]
+        return ExecHooks.ext_call(self, eng, st, name, args, kwargs)
+
+    def cm_enter(self, eng, st, cm):
+        if isinstance(cm, Ref) and cm.cls == "opaque:TimerScheduler":
+            return [("val", cm, st)]
+        return ExecHooks.cm_enter(self, eng, st, cm)
+
+    def cm_exit(self, eng, st, cm, exc):
+        if isinstance(cm, Ref) and cm.cls == "opaque:TimerScheduler":
+            st.emit("scheduler_shutdown")
+            return [("val", None, st)]
+        return ExecHooks.cm_exit(self, eng, st, cm, exc)
+
+    def opaque_call(self, eng, st, fn, args, kwargs):
+        n = fn.name
+        if n == "ThreadPool.submit":
+            st.emit("submit", fn=args[0], args=tuple(args[1:]))
+            return [("val", st.alloc("opaque:Future", {}), st)]
+        if n == "ThreadPool.shutdown":
+            st.emit("shutdown", kwargs=dict(kwargs))
+            return [("val", None, st)]
+        if n in ("Future.add_done_callback", "Future.cancel"):
+            st.emit(n.split(".")[1], fut=fn.info)
+            return [("val", None, st)]
+        if n == "Event.wait":
+            st.emit("event_wait")
+            # another thread (a done-callback / the timer) may have stored a suspend or fatal exception before setting the event
+            me = st.ghost["self"]
+            s2, s3 = st.fork(), st.fork()
+            s2.setfield(me, "_suspend_exception", s2.alloc(eng.program.cls("exceptions.SuspendExecution"), {"args": ("stored",)}))
+            s3.setfield(me, "_fatal_exception", s3.alloc(eng.program.cls("exceptions.BackgroundThreadError"), {"args": ("bg",), "source_exception": eng.new_symexc(s3, "src")}))
+            return [("val", True, st), ("val", True, s2), ("val", True, s3)]
+        if n == "Event.clear":
+            return [("val", None, st)]
+        return ExecHooks.opaque_call(self, eng, st, fn, args, kwargs)
+
+
+def execute_structure(chk, prefix="C09"):
+    P = None
+    for n in (0, 2):
+        eng = Engine(hooks=ExecuteHooks())
+        P = eng.program
+        st = St()
+        chk.function(CE + ".execute", "verified for 0 and 2 branches (structure: pool size, one submission per branch in order, wait, shutdown flags); the per-branch part is the generic pair")
+        exes = [st.alloc(P.cls("concurrency.models.Executable"), {"index": i, "func": OpaqueFn("branch_func")}) for i in range(n)]
+        mc = eng.sym_of_type("int | None", "max_concurrency", st)
+        st.assume(z3.Or(is_none(mc), zint(strip_opt(mc)) >= 1))  # config precondition: a concurrency limit, when given, is positive
+        ev = st.alloc("opaque:Event", {})
+        self_ = st.alloc(P.cls(CE), {"executables": st.alloc("list", {"__kind__": "list", "items": tuple(exes)}), "max_concurrency": mc, "_completion_event": ev, "_suspend_exception": None, "_fatal_exception": None,
+                                     "executables_with_state": st.alloc("list", {"__kind__": "list", "items": ()}), "completion_config": st.alloc("opaque:CompletionConfig", {})})
+        st.ghost["self"] = self_
+        ts_cls = P.cls("concurrency.executor.TimerScheduler")
+        orig = eng.construct
+
+        def construct(cls, args, kwargs, s, ts_cls=ts_cls, orig=orig):
+            if cls is ts_cls:
+                return [("val", s.alloc("opaque:TimerScheduler", {"resubmit": args[0]}), s)]
+            return orig(cls, args, kwargs, s)
+        eng.construct = construct
+
+        def create_result(eng_, s, args, kwargs):
+            s.emit("create_result", states=s.get(args[0])["executables_with_state"])
+            return [("val", s.alloc("opaque:BatchResult", {}), s)]
+        eng.summaries[CE + "._create_result"] = create_result
+        state, ctx = st.alloc("opaque:ExecutionState", {}), st.alloc("opaque:DurableContext", {})
+        res = eng.run(P.func(CE + ".execute"), [self_, state, ctx], st=st)
+        chk.paths += len(res)
+        for k, v, s in res:
+            kinds = [e.kind for e in s.trace]
+            pools = [e for e in s.trace if e.kind == "pool_new"]
+            if n == 0:
+                chk.prove(f"{prefix}.exec.nonempty_pool", s.pc, k == "val" and not pools and "event_wait" not in kinds and "create_result" in kinds,
+                          desc="zero inputs: the call returns an (empty) batch result without creating a pool of zero workers and without waiting on an event nobody will set", sample=f"execute with 0 branches: {kinds}")
+                continue
+            mw = pools[0].max_workers if pools else None
+            exp = z3.If(z3.Or(is_none(mc), zint(strip_opt(mc)) == 0), n, zint(strip_opt(mc)))
+            chk.prove(f"{prefix}.exec.max_workers_arg", s.pc, z3.And(z3.BoolVal(len(pools) == 1), zint(mw) == exp, zint(mw) >= 1) if mw is not None else F,
+                      desc="the thread pool is created once with max_workers = max_concurrency or the number of branches (>= 1): never more branches at once than the limit (S: ThreadPoolExecutor)")
+            subs = [e for e in s.trace if e.kind == "submit"]
+            order_ok = len(subs) == n and all(e.args[1] == exes[i] and e.args[0] == ctx for i, e in enumerate(subs))
+            chk.prove(f"{prefix}.exec.one_submission_per_branch", s.pc, order_ok, desc="each branch is submitted exactly once, in input order, with the executor context and its executable")
+            sh = [e for e in s.trace if e.kind == "shutdown"]
+            flags_ok = len(sh) == 1 and sh[0].kwargs.get("wait") is False and sh[0].kwargs.get("cancel_futures") is True
+            wait_i = kinds.index("event_wait") if "event_wait" in kinds else -1
+            chk.prove(f"{prefix}.exec.no_join", s.pc, flags_ok and wait_i >= 0 and kinds.index("shutdown") > wait_i,
+                      desc="execute waits for the completion event only, then leaves through shutdown(wait=False, cancel_futures=True): it does not wait for running branches, and queued ones never start", sample=f"execute with 2 branches: {kinds}")
+            if k == "val":
+                cr = [e for e in s.trace if e.kind == "create_result"]
+                chk.prove(f"{prefix}.exec.result_from_states", s.pc, len(cr) == 1 and kinds.index("create_result") > wait_i, desc="the result is built from the branch states as they are after the completion event")
+            else:
+                stored = [s.get(self_).get("_suspend_exception"), s.get(self_).get("_fatal_exception")]
+                chk.prove(f"{prefix}.exec.raise_after_event", s.pc, isinstance(v, Ref) and v in [x for x in stored if isinstance(x, Ref)] and wait_i >= 0,
+                          desc="execute raises only a suspend / fatal exception stored by a callback, and only after the completion event")
+    return None
+
+
+def item_in_child_context(chk, prefix="C08"):
+    eng = Engine(hooks=ExecHooks())
+    P = eng.program
+    st = St()
+    q = CE + "._execute_item_in_child_context"
+    chk.function(q, "verified")
+    idf = z3.Function("logical_step_id", z3.IntSort(), z3.StringSort())
+    index = fresh("int", "index")
+    exe = st.alloc(P.cls("concurrency.models.Executable"), {"index": index, "func": OpaqueFn("branch_func")})
+    parent = eng.sym_of_type("str | None", "ctx_parent_id", st)
+    state = st.alloc("opaque:ExecutionState", {})
+    ctx = st.alloc("opaque:DurableContext", {"_parent_id": parent, "state": state})
+    st_cls = P.cls("lambda_service.OperationSubType")
+    self_ = st.alloc(P.cls(CE), {"name_prefix": fresh("str", "name_prefix"), "item_serdes": eng.sym_of_type("str | None", "item_serdes", st), "serdes": eng.sym_of_type("str | None", "serdes", st),
+                                 "sub_type_iteration": fresh("enum", "sub_type_iteration", st_cls), "summary_generator": None})
+
+    class H(ExecHooks):
+        def opaque_call(self, eng_, s, fn, args, kwargs):
+            if fn.name == "DurableContext._create_step_id_for_logical_step":
+                s.emit("id_for", arg=args[0])
+                return [("val", Sym("str", idf(zint(args[0]))), s)]
+            if fn.name == "DurableContext.create_child_context":
+                c = s.alloc("opaque:DurableContext", {"_parent_id": args[0] if args else kwargs.get("parent_id"), "state": state, "__child__": True})
+                s.emit("child_ctx", ctx=c)
+                return [("val", c, s)]
+            if fn.name == "ExecutionState.track_replay":
+                s.emit("track", id=kwargs.get("operation_id", args[0] if args else None))
+                return [("val", None, s)]
+            return ExecHooks.opaque_call(self, eng_, s, fn, args, kwargs)
+    eng.hooks = H()
+
+    def child_handler(eng_, s, args, kwargs):
+        s.emit("child_handler", func=args[0], state=args[1], ident=kwargs.get("operation_identifier", args[2] if len(args) > 2 else None), config=kwargs.get("config"))
+        out = []
+        for k, v, s2 in eng_.call_value(args[0], [], {}, s):  # the handler runs the body (when the record does not short-circuit)
+            out.append((k, v, s2))
+        return out
+
+    def execute_item(eng_, s, args, kwargs):
+        s.emit("execute_item", ctx=args[1], exe=args[2])
+        return [("val", fresh("any", "item_result"), s)]
+    eng.summaries["operation.child.child_handler"] = child_handler
+    eng.summaries[CE + ".execute_item"] = execute_item
+    res = eng.run(P.func(q), [self_, ctx, exe], st=st)
+    chk.paths += len(res)
+    for k, v, s in res:
+        ch = [e for e in s.trace if e.kind == "child_handler"]
+        cc = [e for e in s.trace if e.kind == "child_ctx"]
+        ei = [e for e in s.trace if e.kind == "execute_item"]
+        ids = [e for e in s.trace if e.kind == "id_for"]
+        tr = [e for e in s.trace if e.kind == "track"]
+        ok = k == "val" and len(ch) == 1 and len(cc) == 1 and len(ei) == 1 and len(ids) == 1 and len(tr) == 1 and isinstance(ch[0].ident, Ref)
+        goal = z3.BoolVal(ok)
+        if ok:
+            ident = s.get(ch[0].ident)
+            the_id = Sym("str", idf(index.t))
+            name = ident["name"]
+            goal = z3.And(goal, ops.values_equal(s, ids[0].arg, index), ops.values_equal(s, ident["operation_id"], the_id), ops.values_equal(s, ident["parent_id"], parent),
+                          ops.values_equal(s, s.get(cc[0].ctx)["_parent_id"], the_id), z3.BoolVal(ei[0].ctx == cc[0].ctx and ei[0].exe == exe and ch[0].state == state),
+                          ops.values_equal(s, tr[0].id, the_id),
+                          ops.values_equal(s, name, Sym("str", z3.Concat(ops.zstr(s.get(self_)["name_prefix"]), ops.int_to_str(index.t)))))
+            cfg = s.get(ch[0].config)
+            goal = z3.And(goal, ops.values_equal(s, cfg["sub_type"], s.get(self_)["sub_type_iteration"]))
+        chk.prove(f"{prefix}.branch.index_ids", s.pc, goal,
+                  desc="branch i: id = id-for-logical-step(i) of the executor context (no counter involved), parent link = that context's parent id, a FRESH child context with parent id = the branch id runs the item, name = prefix + i, sub type = the iteration sub type; the replay tracker is told the branch id",
+                  sample="_execute_item_in_child_context for an arbitrary branch index")
+    return eng
